@@ -135,6 +135,12 @@ pub struct ActorState {
     pub steps: u64,
     /// ring pushes accepted so far by this actor's queue (for the abstract state)
     pub pushed: u64,
+    /// the actor is inside a call that may wait for one of the collector's mutexes without passing
+    /// a scheduling point (set_reporter)
+    pub blocking_call: bool,
+    /// the controller took the baton back while the actor was waiting inside such a call; the
+    /// actor rejoins the schedule at its next scheduling point
+    pub detached: bool,
 }
 
 pub struct World {
@@ -233,9 +239,14 @@ impl Sched {
     /// Actor side: give the baton back, announce the next step, wait to be granted it.
     pub fn yield_at(&self, actor: usize, pending: Pending) {
         let mut w = self.world();
-        debug_assert_eq!(w.current, Some(actor));
         w.actors[actor].pending = Some(pending.clone());
-        w.current = None;
+        if w.actors[actor].detached {
+            // the baton was taken back while this actor waited for a mutex: it may be with somebody else
+            w.actors[actor].detached = false;
+        } else {
+            debug_assert_eq!(w.current, Some(actor));
+            w.current = None;
+        }
         self.ctl_cv.notify_one();
         while w.current != Some(actor) {
             w = self.cvs[actor].wait(w).unwrap_or_else(|e| e.into_inner());
@@ -265,7 +276,11 @@ impl Sched {
         w.actors[actor].finished = true;
         w.actors[actor].pending = None;
         w.push_log(Some(actor), Ev::ActorDone);
-        w.current = None;
+        if w.actors[actor].detached {
+            w.actors[actor].detached = false;
+        } else {
+            w.current = None;
+        }
         self.ctl_cv.notify_one();
     }
 
@@ -287,6 +302,27 @@ impl Sched {
         Ok(w)
     }
 
+    /// Controller side: the actor holding the baton is inside a call that may block on a mutex of
+    /// the collector and such a mutex is held: take the baton back so that whoever holds the mutex
+    /// can be scheduled. (A real wait on a real lock: nothing is assumed about which locks the call
+    /// takes or in which order.)
+    pub fn try_detach_current(&self) -> bool {
+        let mut w = self.world();
+        let Some(a) = w.current else { return false };
+        if w.actors[a].blocking_call && (fastrace::verif::collector_locked() || fastrace::verif::registry_locked()) {
+            w.actors[a].detached = true;
+            w.current = None;
+            true
+        } else {
+            false
+        }
+    }
+
+    /// Controller side: wait (briefly) for an actor to change the world.
+    pub fn wait_change<'a>(&'a self, w: MutexGuard<'a, World>, d: Duration) -> MutexGuard<'a, World> {
+        self.ctl_cv.wait_timeout(w, d).unwrap_or_else(|e| e.into_inner()).0
+    }
+
     /// Controller side: hand the baton to `actor`.
     pub fn grant(&self, mut w: MutexGuard<'_, World>, actor: usize) {
         w.current = Some(actor);
@@ -299,7 +335,17 @@ pub fn set_me(id: Option<usize>) {
     let _ = ME.try_with(|m| m.set(id));
 }
 
+/// All collector cycles are driven by the harness: collector threads started by `set_reporter` are
+/// kept at the point where they would begin a cycle of their own.
+pub static PARK_BACKGROUND: std::sync::atomic::AtomicBool = std::sync::atomic::AtomicBool::new(false);
+
 fn hook(p: &Point) {
+    if matches!(p, Point::BackgroundCycle) {
+        while PARK_BACKGROUND.load(std::sync::atomic::Ordering::Relaxed) {
+            std::thread::park_timeout(Duration::from_secs(3600));
+        }
+        return;
+    }
     let s = sched();
     let Some(me) = me() else {
         // Not an actor: the flush helper thread, the background collector, or the controller.
@@ -431,6 +477,8 @@ fn hook(p: &Point) {
                 w.push_log(Some(me), Ev::Dropped);
             }
         }
+        // (handled at the top: collector threads are not actors)
+        Point::BackgroundCycle => {}
     }
 }
 
